@@ -826,7 +826,25 @@ func c13FixedWidthSeq(c *vf.Ctx, ops []fwOp) {
 			ref = append(ref, byte(v>>(8*uint(i))))
 		}
 	}
-	sw := bits.NewFixedSliceWriter(64)
+	// the slice writer gets EXACTLY the number of bytes the sequence needs (what EncodeSW callers do with Size())
+	need := 0
+	for _, op := range ops {
+		switch op.K {
+		case "bytes":
+			need += 3
+		case "str":
+			need += 2
+		case "strz":
+			need += 3
+		case "zero":
+			need += int(op.V % 4)
+		case "matrix":
+			need += 36
+		default:
+			need += fwWidth(op.K)
+		}
+	}
+	sw := bits.NewFixedSliceWriter(need)
 	var bb bytes.Buffer
 	bw := bits.NewByteWriter(&bb)
 	bwOK := true // ByteWriter has a subset of the operations
@@ -878,6 +896,15 @@ func c13FixedWidthSeq(c *vf.Ctx, ops []fwOp) {
 			sw.WriteZeroBytes(int(op.V % 4))
 			bw.WriteSlice(make([]byte, op.V%4))
 			ref = append(ref, make([]byte, op.V%4)...)
+		case "matrix":
+			// the unity transformation matrix of ISO/IEC 14496-12 (16.16 / 2.30 fixed point)
+			var m []byte
+			for _, v := range []uint32{0x00010000, 0, 0, 0, 0x00010000, 0, 0, 0, 0x40000000} {
+				m = append(m, byte(v>>24), byte(v>>16), byte(v>>8), byte(v))
+			}
+			sw.WriteUnityMatrix()
+			bw.WriteSlice(m)
+			ref = append(ref, m...)
 		}
 		if n := fwWidth(op.K); n > 0 {
 			put(op.V, n)
@@ -941,6 +968,9 @@ func c13FixedWidthSeq(c *vf.Ctx, ops []fwOp) {
 		case "zero":
 			sr.SkipBytes(int(op.V % 4))
 			got, want = 0, 0
+		case "matrix":
+			sr.SkipBytes(36)
+			got, want = 0, 0
 		}
 		if !ok || got != want || sr.AccError() != nil {
 			c.Fail("fixedwidth-slicereader-"+op.K, "FixedSliceReader reads back the value written", det(fmt.Sprintf("op %d: got %#x want %#x err %v", i, got, want, sr.AccError())))
@@ -962,7 +992,7 @@ func c13FixedWidthSeq(c *vf.Ctx, ops []fwOp) {
 				return
 			}
 		default:
-			skip := map[string]int{"bytes": 3, "str": 2, "strz": 3}[op.K]
+			skip := map[string]int{"bytes": 3, "str": 2, "strz": 3, "matrix": 36}[op.K]
 			if op.K == "zero" {
 				skip = int(op.V % 4)
 			}
@@ -988,7 +1018,7 @@ func c13FixedWidth(c *vf.Ctx, depth int) {
 			alpha = append(alpha, fwOp{k, v})
 		}
 	}
-	alpha = append(alpha, fwOp{"bytes", 0x1234}, fwOp{"str", 1}, fwOp{"strz", 2}, fwOp{"zero", 0}, fwOp{"zero", 3})
+	alpha = append(alpha, fwOp{"bytes", 0x1234}, fwOp{"str", 1}, fwOp{"strz", 2}, fwOp{"zero", 0}, fwOp{"zero", 3}, fwOp{"matrix", 0})
 	var n int64
 	seq := make([]fwOp, 0, depth)
 	var rec func()
